@@ -49,7 +49,8 @@ type Env struct {
 	Scratch  string
 	Worker   int
 	Workers  int
-	Race     bool
+	Race     bool // a sanitizer build (race detector or ASan): no address-space limit, longer watchdog
+	Asan     bool
 	Replay   bool
 	Root     string // /verif
 }
@@ -282,7 +283,8 @@ func Main(chk *Check) {
 	resume := flag.Int("resume-after", -1, "internal: skip own cases with idx <= this")
 	only := flag.Int("only", -1, "internal: run only this case idx")
 	replay := flag.String("replay", "", "replay file")
-	race := flag.Bool("race", false, "binary was built with -race (informational)")
+	race := flag.Bool("race", false, "binary was built with -race")
+	asan := flag.Bool("asan", false, "binary was built with -asan")
 	workersFlag := flag.Int("workers", 0, "number of worker processes")
 	flag.Parse()
 	if *tier == "" {
@@ -298,7 +300,7 @@ func Main(chk *Check) {
 	if root == "" {
 		root = "/verif"
 	}
-	env := &Env{Seed: seed, Tier: *tier, Thorough: *tier == "thorough", Race: *race, Root: root}
+	env := &Env{Seed: seed, Tier: *tier, Thorough: *tier == "thorough", Race: *race || *asan, Asan: *asan, Root: root}
 	env.Scratch = os.Getenv("VERIF_SCRATCH")
 	if env.Scratch == "" {
 		d, err := os.MkdirTemp("", "verif-"+chk.ID+"-")
@@ -481,7 +483,9 @@ func runDriver(chk *Check, env *Env, nw int, only int) int {
 				if only >= 0 {
 					args = append(args, "--only", strconv.Itoa(only))
 				}
-				if env.Race {
+				if env.Asan {
+					args = append(args, "--asan")
+				} else if env.Race {
 					args = append(args, "--race")
 				}
 				cmd := exec.Command(self, args...)
@@ -491,7 +495,7 @@ func runDriver(chk *Check, env *Env, nw int, only int) int {
 				cmd.Env = append(os.Environ(), "VERIF_SEED="+strconv.FormatUint(env.Seed, 10), "VERIF_SCRATCH="+env.Scratch, "VERIF_TIER="+env.Tier)
 				if env.Race {
 					// the first report ends the worker: it is then attributed to the journal's last case
-					cmd.Env = append(cmd.Env, "GORACE=halt_on_error=1 exitcode=66")
+					cmd.Env = append(cmd.Env, "GORACE=halt_on_error=1 exitcode=66", "ASAN_OPTIONS=halt_on_error=1:abort_on_error=0:exitcode=67:detect_leaks=0")
 				}
 				runErr := cmd.Run()
 				ef.Close()
@@ -519,10 +523,17 @@ func runDriver(chk *Check, env *Env, nw int, only int) int {
 					if ekey != "" {
 						key = "crash:" + ekey
 					}
-					if all, _ := os.ReadFile(ws.errPath); bytes.Contains(all, []byte("WARNING: DATA RACE")) {
+					marker := "WARNING: DATA RACE"
+					if env.Asan {
+						marker = "ERROR: AddressSanitizer"
+					}
+					if all, _ := os.ReadFile(ws.errPath); bytes.Contains(all, []byte(marker)) {
 						key = "data-race"
+						if env.Asan {
+							key = "asan-report"
+						}
 						raceReports++
-						if i := bytes.Index(all, []byte("WARNING: DATA RACE")); i >= 0 {
+						if i := bytes.Index(all, []byte(marker)); i >= 0 {
 							end := i + 3000
 							if end > len(all) {
 								end = len(all)
@@ -781,6 +792,9 @@ func report(chk *Check, env *Env, agg *Aggregate, ncases int, wall time.Duration
 	}
 	if env.Race {
 		ev["sanitizer"] = map[string]any{"kind": "go race detector (-race, GORACE=halt_on_error=1)", "reports": raceReports}
+		if env.Asan {
+			ev["sanitizer"] = map[string]any{"kind": "AddressSanitizer (go build -asan: cgo code of blst/secp256k1 and the Go runtime's asan hooks; halt on first report)", "reports": raceReports}
+		}
 	}
 	if !env.Replay {
 		_ = os.MkdirAll(filepath.Join(env.Root, "evidence"), 0o755)
@@ -788,6 +802,9 @@ func report(chk *Check, env *Env, agg *Aggregate, ncases int, wall time.Duration
 		name := chk.ID + ".json"
 		if env.Race {
 			name = chk.ID + ".race.json" // the sanitizer pass keeps its own evidence next to the plain run's
+		}
+		if env.Asan {
+			name = chk.ID + ".asan.json"
 		}
 		_ = os.WriteFile(filepath.Join(env.Root, "evidence", name), append(b, '\n'), 0o644)
 	}
